@@ -19,6 +19,7 @@ import (
 // fire, which is what quantifies over schedules. No akash code is executed and no solver is used.
 
 type aiState struct {
+	tup  map[ssa.Value][]string // results of an inlined helper call, read by the extracts that follow it
 	env  map[ssa.Value]string
 	mem  map[string]string
 	tok  map[string]string
@@ -46,6 +47,12 @@ func (s *aiState) clone() *aiState {
 	}
 	for k, v := range s.flag {
 		n.flag[k] = v
+	}
+	if len(s.tup) > 0 {
+		n.tup = map[ssa.Value][]string{}
+		for k, v := range s.tup {
+			n.tup[k] = v
+		}
 	}
 	return n
 }
@@ -209,7 +216,7 @@ func (ai *AI) cellOf(addr ssa.Value) (string, bool) {
 // helperFrame collects the states in which an inlined helper returns.
 type helperFrame struct {
 	outs  []*aiState
-	rets  []string // abstract value of result 0 per out
+	rets  [][]string // abstract values of the results, per out
 	depth int
 }
 
@@ -392,6 +399,8 @@ func (ai *AI) execFrom(b *ssa.BasicBlock, from int, st *aiState, push func(*ssa.
 		case *ssa.Extract:
 			if a, ok := st.env[x.Tuple]; ok && strings.HasPrefix(a, "sel:") && x.Index == 0 {
 				st.env[x] = "k:" + a[4:]
+			} else if tv, ok := st.tup[x.Tuple]; ok && x.Index < len(tv) && tv[x.Index] != "" {
+				st.env[x] = tv[x.Index]
 			} else {
 				delete(st.env, x)
 			}
@@ -420,10 +429,16 @@ func (ai *AI) execFrom(b *ssa.BasicBlock, from int, st *aiState, push func(*ssa.
 				}
 				ai.explore(h, hs, hf)
 				for k, out := range hf.outs {
-					if hf.rets[k] == "" {
-						delete(out.env, x)
-					} else {
-						out.env[x] = hf.rets[k]
+					rv := hf.rets[k]
+					delete(out.env, x)
+					if len(rv) == 1 && rv[0] != "" {
+						out.env[x] = rv[0]
+					}
+					if len(rv) > 1 {
+						if out.tup == nil {
+							out.tup = map[ssa.Value][]string{}
+						}
+						out.tup[x] = rv
 					}
 					ai.execFrom(b, idx+1, out, push, frame)
 				}
@@ -478,9 +493,9 @@ func (ai *AI) execFrom(b *ssa.BasicBlock, from int, st *aiState, push func(*ssa.
 			return
 		case *ssa.Return:
 			if frame != nil {
-				rv := ""
-				if len(x.Results) > 0 {
-					rv = ai.val(st, x.Results[0])
+				var rv []string
+				for _, r := range x.Results {
+					rv = append(rv, ai.val(st, r))
 				}
 				frame.outs = append(frame.outs, st)
 				frame.rets = append(frame.rets, rv)
